@@ -258,6 +258,7 @@ pub fn dump_module(m: &naga::Module) -> String {
     let constants = m.constants.iter().map(|(_, c)| {
         let init = match &m.global_expressions[c.init] {
             naga::Expression::Literal(l) => app("GLiteral", &[literal(l)]),
+            naga::Expression::ZeroValue(_) => "GZero".to_string(),
             _ => "GOther".to_string(),
         };
         app(
